@@ -458,7 +458,9 @@ def build(tier):
             'EVERY clone() definition of the library (about 120: found by clang in generated unity translation units of the directories of src/ and '
             'in the headers, class-template instantiations through the factory files): T::clone() returns a NEW object of the dynamic type T whose '
             'complete member state (every data member, bases and parameters included) is a copy of *this, *this untouched -- '
-            'make_unique<T>() / make_unique<other>(..) / a missing *this are refuted',
+            'make_unique<T>() / make_unique<other>(..) / a missing *this are refuted; out-of-line clone() of class templates through the explicit '
+            'instantiations of their .cpp; every class that a factory file registers (template arguments of its add<T> instantiations; quick '
+            'tier: src/lsearch0.cpp, thorough: all eleven) defines clone() ITSELF (an inherited clone() would return a sliced base object)',
             'every class with a user-provided copy constructor (text scan X::X(const X&); solver_t, ml::params_t, functional_t, gboost_model_t, '
             'gboost::result_t): each data member of clang\'s RecordDecl is a member of the C model its copy contract (above) proves copied; a new '
             'class with a hand-written copy constructor and no contract fails its obligation',
